@@ -210,7 +210,16 @@ def present(rng, x, dtypes=('int', 'float32'), p_plain=.7):
     kind = kinds[int(rng.integers(len(kinds)))]
     if kind == 'int':
         sc = max(np.abs(x).max(), 1e-12)
-        xi = np.round(np.asarray(x, dtype=float) / sc * float(pick(rng, [40, 1000]))).astype(pick(rng, [np.int64, np.int32, np.int16]))
+        xi = np.round(np.asarray(x, dtype=float) / sc * float(pick(rng, [40, 1000])))
+        if rng.random() < .35:
+            # raw counts: unsigned integers starting at 0 (so that the smallest values - the deepest troughs - are exactly 0),
+            # sometimes sparse (most samples 0 or 1 above the floor)
+            xi = xi - xi.min()
+            if rng.random() < .4:
+                xi = np.floor(xi / max(xi.max(), 1) * float(pick(rng, [3, 6, 12])))
+            xu = xi.astype(pick(rng, [np.uint8, np.uint16, np.uint32, np.uint64]) if xi.max() < 256 else pick(rng, [np.uint16, np.uint32, np.uint64]))
+            return xu, xu.astype(float), 'uint'
+        xi = xi.astype(pick(rng, [np.int64, np.int32, np.int16]))
         return xi, xi.astype(float), 'int'
     if kind == 'float32':
         x32 = np.asarray(x, dtype=np.float32)
